@@ -139,6 +139,11 @@ func (self *Interpreter) callFunc(span errors.Span, val value.Value, args []ast.
 }
 
 func (self *Interpreter) block(node ast.AnalyzedBlock, handleScoping bool) (*value.Value, *value.Interrupt) {
+	// Also check for the cancelation signal here, otherwise a loop with an empty body would never be terminated.
+	if i := self.checkCancelation(node.Range); i != nil {
+		return nil, i
+	}
+
 	if handleScoping {
 		self.pushScope()
 		defer self.popScope()
